@@ -294,7 +294,13 @@ func runC03(c *Ctx) {
 		okTag := len(tag) == 1 && Term(tag[0].(*ssa.Store).Val) == "ackID" && inLoop(tag[0].Block())
 		c.Ob("C03-D3", "sio.clientSocket._sendBuffers/frames-tagged", sb.Pos(), okTag, "every buffered frame must be tagged with the emit's ack id (the purge finds them by it)")
 	}
-	delInRangeRule(c, "C03-D3", "sio", []string{"client_socket.go", "server_socket.go", "handler.go"}, 0)
+	delInRangeRule(c, "C03-D3", "sio", func(recv, name string) bool {
+		switch name {
+		case "registerAckHandler", "onAck", "newAckHandler", "newAckHandlerWithTimeout":
+			return true
+		}
+		return false
+	}, 20)
 	{
 		fn := p.Fn("sio", "newAckHandlerWithTimeout")
 		gos := 0
